@@ -11,7 +11,7 @@
 //          write_file payload="<path>\n<content>" | mkdir payload=path | chmod payload="<octal> <path>"
 //          run_string | run_file(path) | accumulate(text, split in lines) | run_accumulated
 //          load_db_file(path) | load_db_string(text) | load_small | reload_probe payload="heavy"|"light"
-// "@S@" in any payload is replaced by the scratch directory.  Every case starts from a new instance with the
+// "@S@" in any payload is replaced by the scratch directory, "@R@" by the source tree (C08_REPO, default /repo).  Every case starts from a new instance with the
 // small database loaded; after every failed run/load the runner reloads the small database and compares the
 // probe with the fresh answer (clause 4), then reloads again so that the next op sees a clean instance.
 // result := "RES <id> ok nt=<0|1> cls=<class of each run/load op> rcs=<return codes>\n"
@@ -25,6 +25,10 @@ static std::string expand(const std::string &s)
 	std::string r = s;
 	size_t p = 0;
 	while ((p = r.find("@S@", p)) != std::string::npos) { r.replace(p, 3, g_scratch); p += g_scratch.size(); }
+	const char *e = getenv("C08_REPO");
+	std::string repo = e && *e ? e : "/repo";
+	p = 0;
+	while ((p = r.find("@R@", p)) != std::string::npos) { r.replace(p, 3, repo); p += repo.size(); }
 	return r;
 }
 
